@@ -153,6 +153,35 @@ def run(ck):
                 ck.violation("assembling %r with reads chunked as %s gives %s, unchunked %s" % (p, sc, r.canon(), base.canon()),
                              {"mode": "asm", "harness_case": c, "expected": base.canon()})
                 break
+    # "regardless of file length": single lines far longer than any 16-bit counter -- a long data line, a long comment
+    # before code, a long string, a file without any line break -- and a byte that is not UTF-8 beyond column 65536
+    longs = []
+    n = 24000
+    longs.append(("@db " + ", ".join(str(k % 251) for k in range(n)) + "\n", bytes(k % 251 for k in range(n)), None))
+    longs.append(("; " + "é" * 70000 + "\n@db 5\n", b"\x05", None))
+    longs.append(('@db "' + "a€" * 15000 + '" ;' + "€" * 40000, ("a€" * 15000).encode(), None))
+    longs.append(("@db 7 ;" + "x" * 66000, b"\x07", None))
+    bad_at = 70009
+    longs.append((b"; " + b"y" * (bad_at - 3) + b"\xff\n@db 1\n", None, (1, bad_at)))
+    longs.append((b"@db 1\n;" + "€".encode() * (bad_at - 2) + b"\xc3(\n", None, (2, bad_at)))
+    l_cases = [asm_case("z80", files={"/w/main.asm": t}, opts=("chunks=3,4,1" if k % 2 else "")) for k, (t, _, _) in enumerate(longs)]
+    l_impl = [AsmResult(r) for r in run_cases(harness, l_cases, shards=2)]
+    ck.evaluations += len(l_cases)
+    for (t, want, pos), r, c in zip(longs, l_impl, l_cases):
+        ck.nontriv(c)
+        ck.count("long-line:" + r.kind)
+        if want is not None:
+            if not r.ok or r.bytes != want:
+                ck.violation("a source with a line of %d characters gives %s, expected %d bytes %s..." % (
+                    max(len(x) for x in (t if isinstance(t, str) else t.decode("utf8", "replace")).split("\n")), r.canon()[:80], len(want), want[:8].hex()),
+                    {"mode": "asm", "harness_case": c, "expected": "OK " + want[:32].hex() + "..."})
+                break
+        else:
+            loc = r.loc()
+            if r.ok or r.crashed or not loc or (loc[1], loc[2]) != pos:
+                ck.violation("a byte that is not UTF-8 at line %d column %d: run ends %s at %s" % (pos[0], pos[1], r.kind, loc),
+                             {"mode": "asm", "harness_case": c, "expected": "a diagnostic at %d:%d" % pos})
+                break
     # faults in root / include / incbin
     f_cases = []
     files0 = {"/w/main.asm": '@db 1 ; note é\n; a whole-line comment\n@include "i.inc"\n@incbin "b.bin"\n@db "é" ;tail',
